@@ -956,6 +956,9 @@ func (f *Frame) instr(ins ssa.Instruction) {
 	case *ssa.Go:
 		f.goStmt(i)
 	case *ssa.Send:
+		if f.top && !f.dry && f.fc != nil && len(f.fc.Asserts) > 0 {
+			f.siteAsserts("send", i.Pos(), f.val(i.Chan), f.val(i.X)) // `assert before.send:` arg0 = channel, arg1 = value
+		}
 		f.send(f.val(i.Chan), f.val(i.X), i.Pos())
 	case *ssa.Select:
 		f.selectStmt(i)
